@@ -16,12 +16,13 @@ META = {
                   'pointer arithmetic past the end of the buffer is modelled as an unbounded offset (LP64, fewer than 2^31 requested bytes).',
     'design_ref': '§6 C12',
 }
-REQUIRED_FINAL = ['Librfn.C12.writes_confined', 'Librfn.C12.reads_confined', 'Librfn.C12.all_or_nothing', 'Librfn.C12.sticky',
+REQUIRED = ['Librfn.C12.writes_confined', 'Librfn.C12.reads_confined', 'Librfn.C12.all_or_nothing', 'Librfn.C12.sticky',
             'Librfn.C12.exact_fit_transfers', 'Librfn.C12.consumed_counts_all', 'Librfn.C12.remaining_negative_on_overflow',
             'Librfn.C12.layout_le', 'Librfn.C12.layout_be', 'Librfn.C12.unpack_pack_roundtrip', 'Librfn.C12.null_src_zeros',
-            'Librfn.C12.null_dst_skips']
-REQUIRED = []
-BV_OK = ()      # theorems allowed to depend on a bv_decide certificate (filled in Props/C12.lean's header)
+            'Librfn.C12.null_dst_skips', 'Librfn.C12.back_to_back', 'Librfn.C12.sticky_overflowed']
+# bit-level byte-order facts proved by bv_decide (each adds axioms `<lemma>._native.bv_decide.ax_*`) and the theorems that rest on them
+BV_LEMMAS = {'Librfn.C12.' + n for n in ('layout_le', 'layout_be', 'dec16_encU16le', 'dec16_encS16le', 'dec32_encU32le', 'dec32_encS32le', 'encU16be_eq')}
+BV_OK = BV_LEMMAS | {'Librfn.C12.' + n for n in ('POp.unpacked_stored', 'read_back', 'unpack_pack_roundtrip')}
 
 SIZES = {'s16le': 2, 'u16be': 2, 'u16le': 2, 's32le': 4, 'u32le': 4, 'uc': 1, 'us8': 1, 'uu8': 1, 'uu16': 2, 'uu32': 4}
 
@@ -195,7 +196,7 @@ def harness(ctx):
 
 
 def bv_allow(thm, ax):
-    return thm in BV_OK and ax.startswith(thm + '._native.bv_decide.ax_')
+    return thm in BV_OK and '._native.bv_decide.ax_' in ax and ax.split('._native.bv_decide.ax_')[0] in BV_LEMMAS
 
 
 def run(ctx):
